@@ -175,7 +175,11 @@ func runAuthSet(k *kernel.K) {
 				what = " +second-forced(must be refused)"
 			case c == 7 && !hasForcedPending && num > lastSchedEff:
 				nextAuth += 3
-				b.forced = &aChange{at: b, delay: uint(k.Choose(3, "delay")), auths: authSet(nextAuth, nextAuth+1), bestFin: uint32(fin.rb.Number)}
+				fdelay := uint(k.Choose(3, "delay"))
+				if k.Bool(1, 3, "long-forced-delay") {
+					fdelay += uint(3 + k.Choose(8, "long-delay")) // stays pending while the forks around it grow
+				}
+				b.forced = &aChange{at: b, delay: fdelay, auths: authSet(nextAuth, nextAuth+1), bestFin: uint32(fin.rb.Number)}
 				forcedItem := grandpaDigest(types.GrandpaForcedChange{BestFinalizedBlock: b.forced.bestFin, Auths: b.forced.auths, Delay: uint32(b.forced.delay)})
 				what = fmt.Sprintf(" +forced(delay %d)", b.forced.delay)
 				if k.Bool(1, 3, "also-scheduled-digest") {
